@@ -310,7 +310,7 @@ PROPS = {
                    "of survivors is only checked at the bounded level. Idempotence / sum-to-one up to rounding not decided.",
         verus=[U("c18_truncate_block", ["C18.V.truncate.rescale", "C18.V.truncate.total_over_survivors"]),
                U("c18_truncate_whole", ["C18.V.truncate.whole (the method is its per-infoset loops applied once to the profile handed in: no stale guard, no early exit)"]),
-               U("c18_truncate_sums_to_one", ["C18.V.truncate.sums_to_one", "C18.V.truncate.flat_infoset_unchanged", "C18.V.truncate.idempotent (truncating twice equals truncating once: lemma over the per-infoset postcondition, idealised reals, for an infoset that is a distribution)"]),
+               U("c18_truncate_sums_to_one", ["C18.V.truncate.sums_to_one", "C18.V.truncate.flat_infoset_unchanged", "C18.V.truncate.low_threshold_noop (a threshold below every positive probability changes nothing; idealised reals)", "C18.V.truncate.idempotent (truncating twice equals truncating once: lemma over the per-infoset postcondition, idealised reals, for an infoset that is a distribution)"]),
                U("split_by", ["V.SplitsByMut.next.partition"])],
         kani_functions=["src/lib.rs :: impl Strategies / fn truncate"],
         trusted_base=["uninterpreted float semantics in the Verus unit"],
